@@ -133,8 +133,9 @@ structure TNet where
 
 def TNet.empty : TNet := ⟨[], []⟩
 
-/-- incidences `(node, edge)` in edge order -/
-def TNet.inc (h : TNet) : List (Atom × Atom) := h.edges.flatMap (fun e => e.2.map (fun n => (n, e.1)))
+/-- incidences `(node, edge)` of a list of `(edge ID, members)`, in edge order -/
+def incOf (edges : List (Atom × List Atom)) : List (Atom × Atom) := edges.flatMap (fun e => e.2.map (fun n => (n, e.1)))
+def TNet.inc (h : TNet) : List (Atom × Atom) := incOf h.edges
 
 /-- `H.add_node_to_edge(edge, node)` with `p = (node, edge)` -/
 def addPair (h : TNet) (p : Atom × Atom) : TNet :=
